@@ -233,7 +233,29 @@ fn check_rewrite(words: &[(u16, u16)], st: &mut Stats) {
     use std::io::{Cursor, Write};
     let order = ((words[0].0 as u64) << 16) | words[0].1 as u64;
     let case = || json!({"kind":"rewrite","words": words.iter().map(|w| json!([w.0, w.1])).collect::<Vec<_>>()});
-    let spec = Spec { entries: words.iter().enumerate().map(|(i, w)| ESpec { name: format!("t{i}").into_bytes(), content: b"x".to_vec(), date: w.0, time: w.1, ..Default::default() }).collect(), ..Default::default() };
+    // every third entry also carries an Info-ZIP "UT" block, every third an NTFS block, with instants that differ from the
+    // DOS words: the words in the header are what the property speaks about
+    let ut = {
+        let mut v = vec![0x55u8, 0x54, 5, 0, 1];
+        v.extend_from_slice(&1_234_567_891u32.to_le_bytes());
+        v
+    };
+    let ntfs = {
+        let mut v = vec![0x0au8, 0x00, 32, 0, 0, 0, 0, 0, 1, 0, 24, 0];
+        for _ in 0..3 {
+            v.extend_from_slice(&131_000_000_000_000_001u64.to_le_bytes());
+        }
+        v
+    };
+    let extra_of = |i: usize| match i % 3 {
+        1 => ut.clone(),
+        2 => ntfs.clone(),
+        _ => vec![],
+    };
+    let spec = Spec {
+        entries: words.iter().enumerate().map(|(i, w)| ESpec { name: format!("t{i}").into_bytes(), content: b"x".to_vec(), date: w.0, time: w.1, local_extra: extra_of(i), central_extra: extra_of(i), ..Default::default() }).collect(),
+        ..Default::default()
+    };
     let src = build(&spec).0;
     st.evals += words.len() as u64;
     let r = guard(|| -> Result<Vec<(&'static str, Vec<u8>)>, String> {
